@@ -811,6 +811,28 @@ func derives(v ssa.Value, src func(ssa.Value) bool, throughCalls bool, depth int
 			return rec(x.X, d+1)
 		case *ssa.BinOp:
 			return rec(x.X, d+1) || rec(x.Y, d+1)
+		case *ssa.Alloc:
+			// aggregate built in place: element / field stores
+			for _, r := range *x.Referrers() {
+				switch rr := r.(type) {
+				case *ssa.Store:
+					if rr.Addr == x && rec(rr.Val, d+1) {
+						return true
+					}
+				case *ssa.IndexAddr:
+					for _, r2 := range *rr.Referrers() {
+						if st, ok := r2.(*ssa.Store); ok && st.Addr == rr && rec(st.Val, d+1) {
+							return true
+						}
+					}
+				case *ssa.FieldAddr:
+					for _, r2 := range *rr.Referrers() {
+						if st, ok := r2.(*ssa.Store); ok && st.Addr == rr && rec(st.Val, d+1) {
+							return true
+						}
+					}
+				}
+			}
 		case *ssa.FieldAddr:
 			return rec(x.X, d+1)
 		case *ssa.Field:
